@@ -151,7 +151,8 @@ def _check_factory(ctx: Ctx) -> dict[str, str]:
     fi = ctx.fn(FACTORY)
     cfg = cfg_of(fi.node)
     mw_cls = ctx.repo.cls(MW)
-    ctor = [c for c in calls(fi) if isinstance(c.func, ast.Name) and ctx.repo.resolve_name_global(fi.module, c.func.id) is mw_cls]
+    aliases = {loc for loc, imp in fi.module.imports.items() if imp[0] == "name" and imp[-1] == mw_cls.name} | ({mw_cls.name} if mw_cls.name in fi.module.classes else set())
+    ctor = [c for c in calls(fi) if isinstance(c.func, ast.Name) and c.func.id in aliases and ctx.repo.resolve_name_global(fi.module, c.func.id) is mw_cls]
     if len(ctor) != 1 or not ctor[0].args or not isinstance(ctor[0].args[0], ast.Name):
         raise AnalysisError("anchor=_CapabilitiesMiddleware(<dict>) construction in make_wsgi_app")
     ctor_call = ctor[0]
@@ -322,8 +323,8 @@ def _check_factory(ctx: Ctx) -> dict[str, str]:
                   bad="falcon.App(...) can be reached without the capabilities middleware in the list: some configuration serves responses without capability headers",
                   path=cfg.describe_path(cfg.witness_path({cfg.entry}, cfg.attempt(app), avoid, edges3), fi.module.relpath) if skipped else None)
     late = [s for s in stores if cfg.attempt(s) & cfg.reach(cfg.done(ctor_call))]
-    copies = True  # a store after construction is only harmless if the middleware keeps the same dict object; do not rely on it
-    ctx.check(not late or not copies, "RF-DOM", "headers-complete-before-install", fi, late[0] if late else ctor_call,
+    # (a store after construction would only be harmless if the middleware kept the very same dict object; not relied upon)
+    ctx.check(not late, "RF-DOM", "headers-complete-before-install", fi, late[0] if late else ctor_call,
               ok="all capability stores precede the middleware construction", bad=f"`{txt(late[0].targets[0]) if late else ''}` is stored after the middleware was constructed")
     indep = [k for k in app.keywords if k.arg == "independent_middleware" and not (isinstance(k.value, ast.Constant) and k.value.value is True)]
     ctx.check(not indep, "RF-TABLE", "independent-middleware-kept", fi, app, ok="falcon.App keeps independent_middleware (process_response runs even when an earlier process_request raised: 401/413/415 carry the headers)",
@@ -386,10 +387,16 @@ def _check_probe(ctx: Ctx, emitted: dict[str, str]) -> None:
     # headers read: <x>.get(CONST) / <x>.get(CONST.lower()) / <x>[CONST]
     read: dict[str, str] = {}
     get_calls: list[tuple[ast.Call, str]] = []
+    known = {v.lower() for v in emitted.values()}
     for c in calls(fi):
-        if last_attr(c) == "get" and c.args:
-            nm, val = _const(ctx, fi, c.args[0])
-            if val is not None:
+        # a header read = any call that is handed a capability-header name (headers.get(H), headers.get(H.lower()), a local helper(headers, H), ...)
+        for a in c.args:
+            if not isinstance(a, (ast.Name, ast.Constant, ast.Call)):
+                continue
+            if isinstance(a, ast.Call) and not (isinstance(a.func, ast.Attribute) and a.func.attr in ("lower", "upper", "title")):
+                continue
+            nm, val = _const(ctx, fi, a)
+            if val is not None and (last_attr(c) == "get" or val.lower() in known) and val.lower().startswith(("vgi-", "x-vgi-")):
                 read[val.lower()] = nm or val
                 get_calls.append((c, val.lower()))
     if not read:
@@ -439,7 +446,7 @@ def _check_probe(ctx: Ctx, emitted: dict[str, str]) -> None:
         # decoding
         var = kw[field].id if isinstance(kw[field], ast.Name) else None
         defs = [(st, v) for st, v in (fs.reaching(var, ctor[0]) if var else [(ctor[0], kw[field])]) if v is not None]
-        rhs_all = [v for _st, v in defs]
+        [v for _st, v in defs]
 
         def raw_names(e: ast.AST, at: ast.AST) -> list[str]:
             """names in e that hold the raw header text (their own slice is exactly the wanted header)"""
